@@ -545,6 +545,28 @@ def tree_opscale(sp, dt):
         return 0.0
 
 
+def tree_opscale_est(sp, dt, seed=0):
+    """opscale for spaces too large to materialise: a leaf's magnitude is estimated by ||L v|| / ||v|| for one
+    generated complex v (a lower bound of ||L||_2, >= ||L||_F / sqrt(n) in expectation), then combined by
+    product / sum like opscale.  Used only to keep tolerances relative to the OPERANDS when a result cancels."""
+    rng = np.random.default_rng(seed)
+
+    def ln(leaf):
+        try:
+            o = build(leaf)
+            v = (rng.standard_normal(o.ishape) + 1j * rng.standard_normal(o.ishape)).astype(dt)
+            with warnings.catch_warnings():
+                warnings.simplefilter("ignore")
+                y = np.asarray(o(v), dtype=np.complex128)
+            return float(np.linalg.norm(y.ravel()) / max(np.linalg.norm(v.ravel()), 1e-300))
+        except Exception:
+            return 0.0
+    try:
+        return opscale(sp, ln)
+    except Exception:
+        return 0.0
+
+
 # ----------------------------------------------------------------------------
 # vector-level reference evaluation (for spaces too large to materialise)
 
